@@ -69,6 +69,38 @@ CLAIMS = {
   note="Trusted additionally: the translator and the size assumption on saveValue/loadValue. 'State that exists only after load' and nested libcds "
        "sequences (SSA's wavelet tree) are covered by correspondence only (schema_fallback list is pinned by a theorem).",
   technique="translator-regenerated Coq obligations + generic round-trip theorem + correspondence"),
+ "C07": dict(
+  text="Coq theorems: (a) capacity bookkeeping of the PFC constructor: with the growth check of the current source (bytes + 2*len + 6) every "
+       "write index is below the reservation at the time of the write, for every length/lcp sequence and initial reservation; the old "
+       "check (2*len) is refuted by a valid 13124-string input (C07_cap_ok_fixed, C07_cap_refuted_strings) and the source's check expression is "
+       "tied to the theorem on every run; (b) every read of the Tier-A models (PFC locate/extract/prefix/table, hashing probe loop, DAC access, "
+       "RG rank/select, RPDAC and FM searches, ID iterators incl. the duplicate iterator's sentinel) stays in bounds and every loop terminates "
+       "within its fuel for EVERY query (the out-of-bounds outcome is unreachable); (c) scratch buffers sized from maxlength hold every member "
+       "plus NUL. Runtime part: all 13 kinds built with the MEMALLOC hook shrunk to 16 bytes, queried, saved, loaded, destroyed under ASan; "
+       "capacity-witness and large-input corpus with the default reservation.",
+  note="PARTIAL: use-after-free, double free, uninitialised reads and overruns in code that is not modelled are sanitizer-validated on explored "
+       "inputs only. Hook: LIBCSD_VERIF_MEMALLOC (guarded by LIBCSD_VERIF).",
+  technique="Coq proof (capacity accounting, checked-read models) + ASan-instrumented correspondence runs as supporting evidence"),
+ "C14": dict(
+  text="Coq theorems: the answers of the concrete models depend only on (S, query): any two PFC objects with the layout of S (any bucket sizes, "
+       "built or reloaded) answer alike (C14_pfc_any_copy_answers_alike) and equal the specification, likewise RPDAC / FM / hashing via their "
+       "specification theorems; the PFC comparison never writes and never reads the pattern past its NUL. Tie: every query on a pristine "
+       "object, then a 150-250 call history in one process (shuffled repeats, failed lookups, descending/zig-zag id walks, up to three "
+       "iterators open at once drained round-robin), then every query again: all answers equal each other and the specification; pattern "
+       "buffers (exact-size heap blocks) compared before/after each call.",
+  note="PARTIAL: history independence of the kinds without a concrete model and restoration of the caller's pattern by RePair::extractStringAndCompareRP "
+       "are correspondence only.",
+  technique="Coq proof (functional models: purity by construction + specification equality) + history-based correspondence"),
+ "C19": dict(
+  text="Coq theorems: plain rank/select/access laws; a word-exact model of BitSequenceRG (popcount table, superblock counters Rs, the "
+       "(1<<k)-1 mask incl. k = 31, binary search + word + bit scan of select) equals the plain definitions for EVERY bit vector "
+       "(n < 2^32-64) and factor >= 1: rank1, rank0, access, select1, select0 with their out-of-range answers, no out-of-bounds read, "
+       "save/load round trip (C19_rg_*); pointer wavelet tree access/rank/select equal the sequence definitions over any bitmap meeting the "
+       "plain laws and any symbol-separating code, instantiated with the RG model. Tie: real RG/RRR/SDArray/DArray bitmaps and "
+       "WaveletTree/WaveletTreeNoptrs sequences vs the plain definitions, RG also at layout level (Rs, data, image bytes).",
+  note="RRR, SDArray, DArray, WaveletTreeNoptrs: no concrete model (Tier C, partial). Huffman shape validated per instance. Known findings: "
+       "BitSequenceDArray without ones, WaveletTreeNoptrs over the single symbol 0.",
+  technique="Coq proof (induction on superblocks / tree) + correspondence"),
  "C08": dict(
   text="Regenerated obligations: no save body changes state except the listed finding (C08_save_pure), the tag word comes from a stable source in "
        "every class (C08_tag_stable_K; the unstable list is proved empty), nested saver arguments are pinned. Tier-A: pfc_save is a function of the "
@@ -162,9 +194,6 @@ CLAIMS = {
 }
 
 PLANNED = {
- "C07": "memory-safety check under construction",
- "C14": "query-purity check under construction",
- "C19": "succinct-structure check under construction",
 }
 
 
@@ -185,14 +214,14 @@ def main():
         })
     na = [{"property_id": p, "reason": r + " in this round (see DESIGN.md §4); not claimed until its proof and correspondence run"}
           for p, r in sorted(PLANNED.items()) if p not in CLAIMS]
-    hooks_commits = []
+    hooks_commits = ["39586e8 verif hook: MEMALLOC overridable under LIBCSD_VERIF (LIBCSD_VERIF_MEMALLOC)"]
     m = {
         "version": 1,
         "setup_cmd": "sh tools/setup.sh",
         "hooks": {
             "guard": "LIBCSD_VERIF",
             "enable": "checks compile /repo's sources directly with -DLIBCSD_VERIF (tools/buildlib.py); no repo build system involved; "
-                      "private state is read through '#define private public' in the driver, so no source hook has been needed so far",
+                      "private state is read through '#define private public' in the driver; the only source hook is LIBCSD_VERIF_MEMALLOC (C07 builds with -DLIBCSD_VERIF_MEMALLOC=16)",
             "baseline_off_cmd": "cmake -G Ninja -S /repo -B /repo/_build >/dev/null && cmake --build /repo/_build >/dev/null && ctest --test-dir /repo/_build -j8 --timeout 900",
             "source_commits": hooks_commits,
             "add_only": True,
